@@ -624,8 +624,15 @@ static stamp_t
 __tai_offs(stamp_t t)
 {
 	/* difference of TAI and UTC at epoch instant */
-	zidx_t zi = leaps_before_si32(leaps_s, nleaps_corr, t);
+	zidx_t zi;
 
+	/* the table holds 32-bit stamps, keep later/earlier instants at its ends */
+	if (UNLIKELY(t > INT32_MAX)) {
+		t = INT32_MAX;
+	} else if (UNLIKELY(t < INT32_MIN)) {
+		t = INT32_MIN;
+	}
+	zi = leaps_before_si32(leaps_s, nleaps_corr, t);
 	return leaps_corr[zi];
 }
 
